@@ -37,9 +37,15 @@ Definition results_once (evs : list hev) : bool :=
   strictly_increasing cs && zlist_eqb cs (keys (msort (rets_of evs))).
 
 (* 4: the handler did not run exactly once per call (entered and returned), or ran for no call *)
+(* calls whose request Write was reported as failed although the envelope was delivered ("acknowledgement lost") are
+   recorded only by the entries of their handler (HStS n): the call may fail, its handler must not run twice *)
+Definition faulted_starts (evs : list hev) : list (Z * unit) :=
+  filter_map' (fun e => match e with HStS n => Some (n, tt) | _ => None end) evs.
+
 Definition handler_once (evs : list hev) : bool :=
   let cs := keys (msort (calls_of evs)) in
-  zlist_eqb cs (keys (msort (hstarts_of evs))) && zlist_eqb cs (keys (msort (hrets_of evs))).
+  zlist_eqb cs (keys (msort (hstarts_of evs))) && zlist_eqb cs (keys (msort (hrets_of evs)))
+  && strictly_increasing (keys (msort (faulted_starts evs))).
 
 (* 5: the request the handler saw (on entry, and again just before returning) is not the caller's message *)
 Definition request_ok (evs : list hev) : bool :=
@@ -109,6 +115,12 @@ Example missing_result_bad :
 Proof. vm_compute. reflexivity. Qed.
 Example handler_twice_bad :
   spec_c01 [CInvS 0 11 21; w_req 1 11; HUnS 0 11; HUnS 0 11; HUnR 0 11 21; HUnR 0 11 21; w_rep 1 21; CInvR 0 (ROk 21)] = [4]%nat.
+Proof. vm_compute. reflexivity. Qed.
+Example faulted_handler_twice_bad :
+  spec_c01 [CInvS 0 11 21; w_req 1 11; HUnS 0 11; HStS 1; HStS 1; HUnR 0 11 21; w_rep 1 21; CInvR 0 (ROk 21)] = [4]%nat.
+Proof. vm_compute. reflexivity. Qed.
+Example faulted_handler_once_ok :
+  spec_c01 [CInvS 0 11 21; w_req 1 11; HUnS 0 11; HStS 1; HUnR 0 11 21; w_rep 1 21; CInvR 0 (ROk 21)] = [].
 Proof. vm_compute. reflexivity. Qed.
 Example altered_request_bad :
   spec_c01 [CInvS 0 11 21; w_req 1 11; HUnS 0 11; HUnR 0 13 23; w_rep 1 23; CInvR 0 (ROk 23)] = [2; 5; 7]%nat.
